@@ -42,7 +42,8 @@ type Report struct {
 	Rule        string
 	Assumptions []string
 	Exhaustive  bool
-	NoEvidence  bool // replay of a single case: do not rewrite the evidence file
+	NoEvidence  bool // do not rewrite the evidence file (replays, self-tests)
+	Replaying   bool // replay of a single case: observation thresholds do not apply
 
 	start        time.Time
 	evaluations  int
@@ -295,10 +296,7 @@ func (r *Report) Finish() int {
 	if min < 2 {
 		min = 2
 	}
-	if r.NoEvidence {
-		return 0
-	}
-	if len(r.distinct) < min {
+	if len(r.distinct) < min && !r.Replaying {
 		fmt.Fprintf(os.Stderr, "INCONCLUSIVE: only %d distinct non-trivial cases observed (need %d)\n", len(r.distinct), min)
 		return 2
 	}
